@@ -915,6 +915,12 @@ class Engine:
                         arr = self.heap_field(s2, obj.t, target.attr)
                         s2.ghost[("mf", obj.t.name, target.attr)] = z3.Store(arr, obj.z, to_z3(vv, obj.t.mutable[target.attr]))
                         yield s2, NORMAL
+                elif isinstance(obj, SRef) and obj.t.pycls is not None and \
+                        isinstance(inspect.getattr_static(obj.t.pycls, target.attr, None), property) and \
+                        inspect.getattr_static(obj.t.pycls, target.attr).fset is not None:
+                    # a property of the real class: its setter is real code
+                    for s2, r in self.call(s, inspect.getattr_static(obj.t.pycls, target.attr).fset, [obj, v], {}, target):
+                        yield s2, (("raise", r) if isinstance(r, ExcVal) else NORMAL)
                 else:
                     raise Unsupported(f"attribute store on {obj!r}.{target.attr}")
         elif isinstance(target, ast.Subscript):
@@ -1049,7 +1055,10 @@ class Engine:
             if k.startswith("_") or k in plain:
                 continue
             if k in vars0 and vars0[k] is not v and not _same_plain(vars0[k], v):
-                st.oblige(f"{label}:frame: the loop assigns `{k}`, which is not in its modifies clause", z3.BoolVal(False))
+                # a local variable the loop contract does not know: the code under contract has a different shape than the contract
+                # describes (e.g. a renamed or newly introduced temporary).  That is a mismatch between contract and code, not a
+                # violation of the property: the unit becomes undecided (see verify.run_unit), never failed
+                st.oblige(f"{label}:frame-local: the loop assigns the local `{k}`, which the loop contract does not describe", z3.BoolVal(False))
         havoced_locs = set()
         for n in plain:
             v0 = vars0.get(n)
@@ -1616,6 +1625,8 @@ class Engine:
                                 pass
                             elif isinstance(c, dict):
                                 kwargs.update(c)
+                            elif isinstance(c, SRef) and getattr(c.t, "as_kwargs", False):
+                                kwargs["**"] = c       # an opaque keyword mapping, handed as such to a callee under contract
                             else:
                                 raise Unsupported("** of a mapping with symbolic keys")
                         else:
